@@ -52,6 +52,12 @@ def cases(tier, seed):
                 for crc in ("granted", "not-requested"):
                     out.append({"n": n, "crc": crc, "D": 1 if n <= 22 or tier == "thorough" else 0, "seed": seed,
                                 "buffering": buf, "reads": plan})
+    # histories: an earlier block upload in the same process that did NOT complete (abandoned half-read by the
+    # application; aborted by the server in the middle of a sub-block), on another client / on the same one
+    for n in (8, 15, 30):
+        for pre in ("abandoned-other", "abandoned-same", "server-abort-other", "server-abort-same"):
+            for crc in ("granted", "not-requested"):
+                out.append({"n": n, "crc": crc, "D": 1 if tier == "quick" else 2, "seed": seed, "pre": pre})
     # length sweep: every length up to two full 127-segment blocks (thorough: four), undisturbed; CRC / size indication /
     # payload family rotating with the length
     top = 1800 if tier == "quick" else 3600
@@ -110,7 +116,43 @@ def one(case, ch):
             return [r, r]
         return [r]
 
-    link = RefLink(srv, resp_filter=resp_filter)
+    pre = case.get("pre")
+    armed = {"on": pre is None}
+    link = RefLink(srv, resp_filter=lambda r: resp_filter(r) if armed["on"] else [r])
+    if pre:
+        import canopen as _c
+        if pre.endswith("other"):
+            psrv = StrictSdoServer(6, crc=True)
+            plink = RefLink(psrv, node_id=6)
+        else:
+            psrv, plink = srv, link
+        pmux = (0x2001, 0)
+        psrv.store[pmux] = simenv.pattern(40, 3)
+        keep = psrv.expected_mux
+        psrv.expected_mux = struct.pack("<HB", *pmux)
+        try:
+            fp = plink.node.sdo.open(pmux[0], pmux[1], "rb", block_transfer=True, buffering=0)
+            fp.read(7)
+            if pre.startswith("server-abort"):
+                plink.from_server([(0x580 + (6 if pre.endswith("other") else 5), bytes([0x80]) + struct.pack("<HB", *pmux) + struct.pack("<L", 0x08000020))])
+                try:
+                    fp.read(7)
+                    fp.read(7)
+                except (_c.SdoAbortedError, _c.SdoCommunicationError):
+                    pass
+            try:
+                fp.close()
+            except (_c.SdoAbortedError, _c.SdoCommunicationError):
+                pass
+        except (_c.SdoAbortedError, _c.SdoCommunicationError):
+            pass
+        # the application gives the transfer up: the server's side of it ends (abort / its own time-out)
+        psrv.st = None
+        psrv.expected_mux = keep
+        del psrv.frames[:], psrv.violations[:], psrv.completed[:], psrv.ack_log[:]
+        plink.client_frames[:] = []
+        simenv.W.timeouts = 0
+        armed["on"] = True
     err = got = None
     try:
         kw = {} if case.get("buffering") is None else {"buffering": case["buffering"]}
